@@ -139,6 +139,17 @@ fn run_file(j: &Value) -> Value {
             let _ = std::fs::create_dir_all(root.join(d.as_str().unwrap_or("")));
         }
     }
+    // named pipes nobody writes to
+    if let Some(fifos) = j.get("fifos").and_then(|v| v.as_array()) {
+        for f in fifos {
+            let p = root.join(f.as_str().unwrap_or(""));
+            if let Ok(c) = std::ffi::CString::new(p.to_string_lossy().as_bytes()) {
+                unsafe {
+                    libc::mkfifo(c.as_ptr(), 0o600);
+                }
+            }
+        }
+    }
     let cwd = root.join(s(j, "cwd"));
     if std::env::set_current_dir(&cwd).is_err() {
         return json!({"r": "tool", "text": format!("cannot chdir {:?}", cwd)});
